@@ -29,7 +29,9 @@ def group_headers(headers, ignore):
             vals[n] = []
             order.append(n)
         vals[n].append(v)
-    return [(n, v) for n in order for v in vals[n]]
+    # order across different names carries no meaning in HTTP and hyper's HeaderMap does not keep it
+    # (swap_remove when it drops a framing header); order of the values of one name is kept
+    return [(n, v) for n in sorted(order) for v in vals[n]]
 
 
 class Callers:
@@ -185,12 +187,63 @@ class Runner:
             assert r == "ok", r
             self.cur_env["key"] = kk
 
-    def run_case(self, case, conn=None, keep_conn=False):
+    def run_burst(self, cases):
+        """same environment for all; every case on its own connection, all requests in flight together.
+        returns observations (failed summary is read once, after the burst, into the LAST observation)"""
+        import threading
+        st = self.stack
+        self.set_env(cases[0]["env"])
+        st.ctl("clear")
+        st.hosts.take()
+        prepared = []
+        for case in cases:
+            caller, dest = case.get("caller"), case.get("dest")
+            audit = None
+            if caller is not None:
+                audit = (caller["uid"], caller["pid"], 1 if caller["elevated"] else 0, dest[0], dest[1])
+            conn = st.connect(audit=audit)
+            self.token_seq += 1
+            token = "t%d" % self.token_seq
+            if case.get("plan"):
+                st.hosts.plans[token] = case["plan"]
+            req = dict(case["req"])
+            req["headers"] = list(req["headers"]) + [(b"x-verif-token", token.encode())]
+            raw = e2e.build_request(req["method"], req["target"], req["headers"], req.get("body"), req.get("chunked"),
+                                    req.get("declare", True))
+            prepared.append((case, conn, req, raw, token))
+        results = [None] * len(prepared)
+
+        def work(i):
+            case, conn, req, raw, token = prepared[i]
+            results[i] = conn.request(raw, req["method"].encode(), timeout=10.0)
+        ths = [threading.Thread(target=work, args=(i,)) for i in range(len(prepared))]
+        t0 = time.time()
+        for t in ths:
+            t.start()
+        for t in ths:
+            t.join()
+        t1 = time.time()
+        time.sleep(0.05)
+        recs = st.hosts.take()
+        failed = st.ctl("failed")
+        obs = []
+        for i, (case, conn, req, raw, token) in enumerate(prepared):
+            mine = [r for r in recs if not r.get("partial") and e2e.hget(r["headers"], b"x-verif-token") == token.encode()]
+            conn.close()
+            st.hosts.plans.pop(token, None)
+            o = {"case": case, "resp": results[i], "recs": mine, "bytes": {"burst": sum(len(r["raw"]) for r in mine)},
+                 "failed": None, "t0": t0, "t1": t1, "req": req, "conn": None, "burst": True}
+            self.observations.append(o)
+            obs.append(o)
+        return obs, failed
+
+    def run_case(self, case, conn=None, keep_conn=False, clear=True):
         """case: env, caller (None = direct), dest, req, plan(optional), label.
         returns observation dict"""
         st = self.stack
         self.set_env(case["env"])
-        st.ctl("clear")
+        if clear:
+            st.ctl("clear")
         st.hosts.take()
         before = st.hosts.total_bytes()
         caller, dest = case.get("caller"), case.get("dest")
@@ -334,7 +387,7 @@ class Runner:
                     if wanth != goth2:
                         diffs.append(("client-headers", wanth, goth2))
         # failed-authorization summary count
-        if m["kind"] != "bad":
+        if m["kind"] != "bad" and o["failed"] is not None and not o["case"].get("no_failed_compare"):
             n_failed = 0
             if o["failed"] not in ("-", "err"):
                 n_failed = sum(int(x.split("|")[-1]) for x in o["failed"].split(","))
